@@ -460,6 +460,20 @@ def mk_ppolicy(case, pomdp):
         if c.get("acts_tuple"):
             acts = tuple(acts)
         return FiniteStateController(pomdp, acts, arr, initial_state=c["init"])
+    if c["kind"] == "belief":
+        # value-based policies: agent states are Beliefs (msdm.core.pomdp.tabularpomdp.Belief)
+        from msdm.core.pomdp.policy import ValueBasedTabularPOMDPPolicy
+        if c["variant"] == "alpha":
+            from msdm.core.pomdp.alphavectorpolicy import AlphaVectorPolicy
+            return AlphaVectorPolicy(pomdp, np.array([[fl(x) for x in row] for row in c["alpha"]], dtype=float))
+
+        class Myopic(ValueBasedTabularPOMDPPolicy):
+            """expected one-step reward under the belief"""
+            def action_value(self, b, a):
+                return sum(p * q * self.pomdp.reward(s, a, ns)
+                           for s, p in zip(*b) if p > 0
+                           for ns, q in self.pomdp.next_state_dist(s, a).items())
+        return Myopic(pomdp)
     if c["kind"] == "table":
         act = [mk_dist(d, lab.A) for d in c["act"]]
         nxt = c["next"]
@@ -525,8 +539,15 @@ def pomdp_once(c0, pomdp, pol, case):
     guard = guard_absorbing(pomdp, int(c0.get("step_guard", 400)))
     rng, g = Scripted(case["stream"], "rng"), Scripted(case["gstream"], "global")
     ag0 = case.get("ag0")
+    belief = c0["ctrl"]["kind"] == "belief"
     if ag0 is not None and c0["ctrl"]["kind"] == "sfsc":
         ag0 = np.array([fl(x) for x in ag0], dtype=float)
+    if belief:
+        from msdm.core.pomdp.tabularpomdp import Belief
+        if ag0 == "prior":
+            ag0 = pol.initial_agentstate()            # the model prior, passed explicitly
+        elif ag0 is not None:
+            ag0 = Belief(tuple(pomdp.state_list), tuple(fl(x) for x in ag0))
     try:
         with GlobalPatch(g):
             traj = pol.run_on(pomdp, initial_state=case["s0"], initial_agentstate=ag0,
@@ -538,6 +559,28 @@ def pomdp_once(c0, pomdp, pol, case):
     finally:
         pomdp._is_absorbing = guard[1]
     lab = PLabels(c0)
+    if belief:
+        # agent states are reported as their position in the run (0, 1, 2, ...); what the policy's own functions say
+        # about them is evaluated here, on the policy object itself
+        want0 = pol.initial_agentstate() if ag0 is None else ag0
+        chk = {"first_ag_ok": traj[0].agentstate == want0 and isinstance(traj[0].agentstate, Belief),
+               "act_pos": [], "nag_ok": [], "chain_ok": []}
+        supports = []
+        steps = []
+        for t, (st, nx) in enumerate(zip(traj[:-1], traj[1:])):
+            d = pol.action_dist(st.agentstate)
+            supports.append([lab.Aid[a] for a in d.support])
+            chk["act_pos"].append(bool(d.prob(st.action) > 0))
+            chk["nag_ok"].append(st.nextagentstate == pol.next_agentstate(st.agentstate, st.action, st.observation))
+            chk["chain_ok"].append(nx.agentstate == st.nextagentstate)
+            steps.append([int(st.state), t, lab.Aid[st.action], int(st.nextstate), fj(st.reward),
+                          lab.Oid[st.observation], t + 1])
+        last = traj[-1]
+        return {"steps": steps, "final": [int(last.state), len(steps)],
+                "final_rest_none": all(x is None for x in last[2:]),
+                "supports": supports, "belief_checks": chk,
+                "first_belief": [fj(x) for x in traj[0].agentstate.probs],
+                "rng": rng.summary(), "global": g.summary()}
     steps = []
     for st in traj[:-1]:
         steps.append([int(st.state), ag_json(st.agentstate), lab.Aid[st.action], int(st.nextstate), fj(st.reward),
